@@ -2,6 +2,7 @@ import Afkak.ClientNet
 import Afkak.Monitor.C11
 import AfkakProofs.Client.Net
 import AfkakProofs.Client.Timers
+import AfkakProofs.Client.MonC11
 import AfkakProps.Open.C11
 /-!
 # C11 — every broker request is bounded by the client timeout
@@ -112,6 +113,31 @@ theorem C11_disconnect_on_timeout (cfg : Cfg) (st : St) (k : Nat) (q : Req)
     (exec cfg r.1 (.disconnect q.b)).2.1 = [.bcDisconnect q.b] := by
   simp [exec, hq, hp]
 
+/-- **The monitor is sound for the model.**  Every trace of the client model from the initial state - every
+    sequence of API calls, completions, connection events and clock advances, with every environment answer -
+    is accepted by the core rules of the monitor `Afkak.Monitor.C11` that is evaluated on the real client's traces
+    (each request armed once with `max(timeout, min_timeout)` of a call for its group; after every step exactly
+    the unresolved requests own a pending timer, none overdue; a timer is released only once its request is
+    resolved; a late reply disturbs nothing; a clock timeout with `disconnect_on_timeout` is followed, in the
+    same step, by exactly one disconnect of that broker client, and no disconnect happens otherwise) - for
+    non-negative timeouts, in runs where no step exhausts the interpreter's fuel.  Proved by a simulation
+    (`AfkakProofs/Client/MonC11.lean`: `Rel` between model state + pending action stack and monitor state). -/
+theorem C11_model_traces_satisfy_monitor (cfg : Cfg) (h0 : 0 ≤ cfg.timeout) (h1 : 0 ≤ cfg.retryDelay)
+    (evs : List (Env × Ev)) (hnf : NoFuel cfg {} evs) :
+    Afkak.Monitor.C11.ok cfg (traceOf cfg {} evs) = true :=
+  monitor_accepts_model cfg h0 h1 evs hnf
+
+/-- Every reachable state has nothing overdue: whatever the events were, every unresolved request's bound
+    (`issued + max(timeout, min_timeout)`) lies in the future or is now - a request is never unresolved after
+    its bound (runs in which no step exhausts the interpreter's fuel). -/
+theorem C11_resolved_by_bound (cfg : Cfg) (h0 : 0 ≤ cfg.timeout) (h1 : 0 ≤ cfg.retryDelay)
+    (evs : List (Env × Ev)) (hnf : NoFuel cfg {} evs) :
+    let st := evs.foldl (fun s e => (step cfg s e.1 e.2).1) ({} : St)
+    ∀ q ∈ st.reqs, q.pending = true → st.now ≤ q.due := by
+  intro st q hq hp
+  have hI := trace_sound cfg h0 h1 evs {} {} (StepInv.init cfg) hnf
+  exact hI.nover _ (hI.inv.pendTimer q hq hp)
+
 /-! Non-vacuity: a request to a silent broker times out after exactly the bound and the connection is
     dropped; a request with a 35 s minimum is armed with 35 s; the late reply is discarded. -/
 example :
@@ -133,7 +159,8 @@ C11_timer_released
 C11_min_timeout
 C11_late_reply_discarded
 C11_disconnect_on_timeout
+C11_model_traces_satisfy_monitor
+C11_resolved_by_bound
 -/
 /- OPEN_STATEMENTS
-C11_model_traces_satisfy_monitor
 -/
